@@ -157,10 +157,16 @@ func genbankAccessionParser(gb *GenBank, depth int) pars.Parser {
 		// accession: read it back into the field it was written from.
 		const mark = " REGION: "
 		if i := strings.LastIndex(gb.Fields.Accession, mark); i >= 0 {
-			loc, err := gts.AsLocation(gb.Fields.Accession[i+len(mark):])
-			if r, ok := loc.(gts.Ranged); ok && err == nil && r.Partial == (gts.Partial{}) {
-				gb.Fields.Accession = gb.Fields.Accession[:i]
-				gb.Fields.Region = gts.Segment{r.Start, r.End}
+			// first..last, one-based and inclusive; a region without a
+			// base (the empty slice at k) is written k+1..k
+			span := strings.Split(gb.Fields.Accession[i+len(mark):], "..")
+			if len(span) == 2 {
+				first, err1 := strconv.Atoi(span[0])
+				last, err2 := strconv.Atoi(span[1])
+				if err1 == nil && err2 == nil && first >= 1 && last >= first-1 {
+					gb.Fields.Accession = gb.Fields.Accession[:i]
+					gb.Fields.Region = gts.Segment{first - 1, last}
+				}
 			}
 		}
 		return nil
